@@ -108,18 +108,18 @@ theorem pad_code_compute (buf : List UInt8) (n : Nat) (h1 : 2 ≤ n) (h2 : n ≤
   have hw : wrapI64 (lenI buf + (k : Int)) = ((buf.length + k : Nat) : Int) := by
     unfold lenI
     rw [wrapI64_of_in (by unfold InI64; omega)]; simp
-  have hge : decide ((0 : Int) ≤ ((buf.length + k : Nat) : Int)) = true := by simp
+  have hge : decide ((0 : Int) ≤ ((buf.length + k : Nat) : Int)) = true := by simp; omega
   have hfill : fill (List.replicate (buf.length + k) (0 : UInt8)) buf = buf ++ List.replicate k 0 := by
     unfold fill
     have ht : buf.take (List.replicate (buf.length + k) (0 : UInt8)).length = buf := by
       rw [List.length_replicate]; exact List.take_of_length_le (by omega)
-    rw [ht, List.drop_replicate]
-    congr 2; omega
+    have e : buf.length + k - buf.length = k := by omega
+    rw [ht, List.drop_replicate, e]
   have hlen : lenI (buf ++ List.replicate k (0 : UInt8)) = ((buf.length + k : Nat) : Int) := by
     simp [lenI]
   have hbnd : decide (0 ≤ lenI buf ∧ lenI buf ≤ ((buf.length + k : Nat) : Int) ∧
       ((buf.length + k : Nat) : Int) ≤ ((buf.length + k : Nat) : Int)) = true := by
-    simp [lenI]
+    simp [lenI]; omega
   have hwr : writeAt (buf ++ List.replicate k (0 : UInt8)) (lenI buf) ((buf.length + k : Nat) : Int)
       (List.replicate k (UInt8.ofNat k)) = buf ++ List.replicate k (UInt8.ofNat k) := by
     unfold writeAt lenI
@@ -401,6 +401,6 @@ example : PadPKCS7 [1, 2, 3] 8 = .ok (enc (pad [1, 2, 3] (8 : Int).toNat)) :=
 example : UnpadPKCS7 256 (resBytes (PadPKCS7 [1, 2, 3] 8)) 8 = .ok ([1, 2, 3], none) :=
   unpad_pad_code_roundtrip [1, 2, 3] 8 (by decide) (by decide) (by decide)
 example : ∃ out : List UInt8, PadPKCS7 [1, 2, 3] 8 = .ok (out, none) ∧ out.length = 3 + 5 :=
-  ⟨_, by decide +kernel, by decide +kernel⟩
+  ⟨[1, 2, 3, 5, 5, 5, 5, 5], by decide +kernel, by decide +kernel⟩
 
 end Kit.CryptoGlue.Code
